@@ -1441,6 +1441,49 @@ def desugar(rec, prog, stats):
             stats.setdefault(rec["path"], []).append("desugar:" + c.rsplit("::", 1)[1])
             changed = True
             continue
+        if re.fullmatch(r"core::cmp::impls::<impl core::cmp::PartialOrd for f(32|64)>::partial_cmp", c or "") and len(t["args"]) == 2 and not t["dest"]["proj"] \
+                and all(a["k"] in ("move", "copy") and not a["place"]["proj"] for a in t["args"]):
+            # a.partial_cmp(&b) on floats  ->  if a > b { Some(Greater) } else if a < b { Some(Less) } else if a == b { Some(Equal) } else { None }
+            # (`>` is tested first so that everything that is not Greater is dominated by its false edge - the usual `match .. { Some(Greater) => p, _ => q }`)
+            fty = {"k": "float", "bits": 32 if "f32" in c else 64}
+            bty = {"k": "bool"}
+            dty = rec["locals"][t["dest"]["local"]]
+            line = t.get("line")
+            n = len(rec["locals"])
+            rec["locals"].extend([fty, fty, bty, bty, bty, {"k": "adt", "path": "core::cmp::Ordering", "args": [], "s": "core::cmp::Ordering"}])
+            a_, b_, g_, l_, e_, o_ = range(n, n + 6)
+            nb = len(rec["blocks"])
+            BG, B1, BL, B2, BE, BN = nb, nb + 1, nb + 2, nb + 3, nb + 4, nb + 5
+
+            def some(vi, vn):
+                return [{"k": "assign", "place": {"local": o_, "proj": []},
+                         "rv": {"k": "aggregate", "agg": "adt", "path": "core::cmp::Ordering", "variant": vi, "vname": vn, "args": [], "is_enum": True, "ops": []}, "line": line},
+                        {"k": "assign", "place": copy.deepcopy(t["dest"]),
+                         "rv": {"k": "aggregate", "agg": "adt", "path": "core::option::Option", "variant": 1, "vname": "Some", "args": dty.get("args", []), "is_enum": True,
+                                "ops": [{"k": "move", "place": {"local": o_, "proj": []}}]}, "line": line}]
+
+            def test(dst, op):
+                return {"k": "assign", "place": {"local": dst, "proj": []},
+                        "rv": {"k": "binop", "op": op, "a": {"k": "copy", "place": {"local": a_, "proj": []}}, "b": {"k": "copy", "place": {"local": b_, "proj": []}}}, "line": line}
+
+            def sw(dst, yes, no):
+                return {"k": "switch", "discr": {"k": "move", "place": {"local": dst, "proj": []}}, "dty": bty, "arms": [[0, no]], "otherwise": yes, "line": line}
+            blk["stmts"] = list(blk["stmts"]) + [
+                {"k": "assign", "place": {"local": a_, "proj": []}, "rv": {"k": "use", "op": {"k": "copy", "place": {"local": t["args"][0]["place"]["local"], "proj": [{"k": "deref"}]}}}, "line": line},
+                {"k": "assign", "place": {"local": b_, "proj": []}, "rv": {"k": "use", "op": {"k": "copy", "place": {"local": t["args"][1]["place"]["local"], "proj": [{"k": "deref"}]}}}, "line": line},
+                test(g_, "Gt")]
+            blk["term"] = sw(g_, BG, B1)
+            rec["blocks"].append({"stmts": some(2, "Greater"), "term": {"k": "goto", "target": t["target"]}})
+            rec["blocks"].append({"stmts": [test(l_, "Lt")], "term": sw(l_, BL, B2)})
+            rec["blocks"].append({"stmts": some(0, "Less"), "term": {"k": "goto", "target": t["target"]}})
+            rec["blocks"].append({"stmts": [test(e_, "Eq")], "term": sw(e_, BE, BN)})
+            rec["blocks"].append({"stmts": some(1, "Equal"), "term": {"k": "goto", "target": t["target"]}})
+            rec["blocks"].append({"stmts": [{"k": "assign", "place": copy.deepcopy(t["dest"]),
+                                             "rv": {"k": "aggregate", "agg": "adt", "path": "core::option::Option", "variant": 0, "vname": "None", "args": dty.get("args", []),
+                                                    "is_enum": True, "ops": []}, "line": line}], "term": {"k": "goto", "target": t["target"]}})
+            stats.setdefault(rec["path"], []).append("desugar:partial_cmp")
+            changed = True
+            continue
         if c == "core::iter::Iterator::find_map" and len(t["args"]) == 2 and not t["dest"]["proj"] and t.get("cargs") \
                 and all(a["k"] in ("move", "copy") and not a["place"]["proj"] for a in t["args"]) \
                 and rec["locals"][t["args"][1]["place"]["local"]].get("k") == "closure" and _closure_arg_ty(prog, rec, t["args"][1]) is not None \
@@ -1615,14 +1658,30 @@ def _known_variant(rec, preds, P, y):
     return ks[0]
 
 
+_ADT_DISCR = {}
+
+
+def _arm_value(rv):
+    """what `switch discr(x)` sees for x built by the aggregate rv: the variant's DISCRIMINANT, which differs from the variant index for
+    core::cmp::Ordering (Less = -1 (0xff), Equal = 0, Greater = 1) and for crate enums with explicit discriminants"""
+    v = rv.get("variant")
+    path = rv.get("path")
+    if path == "core::cmp::Ordering":
+        return {0: 255, 1: 0, 2: 1}.get(v, v)
+    m = _ADT_DISCR.get(path)
+    if m is not None and v in m:
+        return m[v]
+    return v
+
+
 def _fixed_variant(rec, y, depth=3):
-    """the variant index of local y when its only definition is an enum constructor (possibly moved through plain temporaries)"""
+    """the discriminant (switch-arm value) of local y when its only definition is an enum constructor (possibly moved through plain temporaries)"""
     d = _all_defs(rec, y)
     if len(d) != 1 or d[0][0] != "stmt" or d[0][3]["place"]["proj"]:
         return None
     rv = d[0][3]["rv"]
     if rv["k"] == "aggregate" and rv.get("is_enum") and isinstance(rv.get("variant"), int):
-        return rv["variant"]
+        return _arm_value(rv)
     if depth and rv["k"] == "use" and rv["op"]["k"] in ("move", "copy") and not rv["op"]["place"]["proj"]:
         return _fixed_variant(rec, rv["op"]["place"]["local"], depth - 1)
     return None
@@ -1785,7 +1844,7 @@ def thread_jumps(rec, stats):
                     and isinstance(w["rv"].get("variant"), int) \
                     and not any(st["k"] == "assign" and st["rv"]["k"] in ("ref", "rawptr") and st["rv"].get("mut") and st["rv"]["place"]["local"] == x
                                 for st in jb["stmts"][ws[-1]:ds[0]]):
-                k = w["rv"]["variant"]
+                k = _arm_value(w["rv"])
                 tgt = next((tb for v, tb in t["arms"] if v == k), t["otherwise"])
                 jb["term"] = {"k": "goto", "target": tgt}
                 stats.setdefault(rec["path"], []).append("thread:built-here")
@@ -1799,7 +1858,7 @@ def thread_jumps(rec, stats):
             for st in pb["stmts"]:
                 if st["k"] == "assign" and st["place"]["local"] == x:
                     if not st["place"]["proj"] and st["rv"]["k"] == "aggregate" and st["rv"].get("is_enum") and isinstance(st["rv"].get("variant"), int):
-                        k = st["rv"]["variant"]
+                        k = _arm_value(st["rv"])
                     elif not st["place"]["proj"] and st["rv"]["k"] == "use" and st["rv"]["op"]["k"] in ("move", "copy") and not st["rv"]["op"]["place"]["proj"]:
                         # x = move y, and the only way into P is the arm `discr(y) == k` of a switch
                         k = _known_variant(rec, preds, P, st["rv"]["op"]["place"]["local"])
@@ -1875,7 +1934,7 @@ def thread_shapes(rec, stats, budget=40):
                     env.pop(pl["local"], None)
                     continue
                 if rv["k"] == "aggregate" and rv.get("agg") == "adt" and rv.get("is_enum") and isinstance(rv.get("variant"), int):
-                    env[pl["local"]] = ("agg", rv["variant"], [shape_of_operand(env, o) for o in rv.get("ops", [])])
+                    env[pl["local"]] = ("agg", rv["variant"], [shape_of_operand(env, o) for o in rv.get("ops", [])], _arm_value(rv))
                 elif rv["k"] == "use":
                     sh = shape_of_operand(env, rv["op"])
                     if sh is not None:
@@ -1917,7 +1976,7 @@ def thread_shapes(rec, stats, budget=40):
                 if len(src) == 1 and src[0]["rv"]["k"] == "discr":
                     sh = shape_of_operand(env, {"k": "copy", "place": src[0]["rv"]["place"]})
                     if sh is not None and sh[0] == "agg":
-                        k = sh[1]
+                        k = sh[3] if len(sh) > 3 else sh[1]
                 if k is None:
                     break
                 appended.append(copy.deepcopy(jb["stmts"]))
@@ -2117,6 +2176,34 @@ def eval_const_body(cb):
     return None
 
 
+def materialise_promoted_scalars(rec, prog, stats):
+    """`x = const &promoted` where the promoted body is `_1 = <scalar literal>; _0 = &_1` (rustc's promotion of `&0.0`, `&5` ..):
+    the literal is put in a fresh local and x borrows that local, so that `*x` reads as the literal."""
+    changed = False
+    for blk in rec["blocks"]:
+        new_stmts = []
+        for st in blk["stmts"]:
+            if st.get("k") == "assign" and st["rv"].get("k") == "use" and st["rv"]["op"].get("k") == "const" and "val" not in st["rv"]["op"]:
+                c = st["rv"]["op"]
+                cb = prog.promoted.get(c.get("s")) if getattr(prog, "promoted", None) else None
+                if cb and len(cb["blocks"]) == 1 and cb["blocks"][0]["term"]["k"] == "return":
+                    sts = [x for x in cb["blocks"][0]["stmts"] if x.get("k") == "assign"]
+                    if len(sts) == 2 and sts[0]["rv"].get("k") == "use" and sts[0]["rv"]["op"].get("k") == "const" and "val" in sts[0]["rv"]["op"] \
+                            and not sts[0]["place"]["proj"] and sts[1]["place"] == {"local": 0, "proj": []} and sts[1]["rv"].get("k") == "ref" \
+                            and sts[1]["rv"]["place"] == {"local": sts[0]["place"]["local"], "proj": []} and not sts[1]["rv"].get("mut") \
+                            and sts[0]["rv"]["op"]["ty"].get("k") in ("float", "int", "uint", "bool", "char"):
+                        n = len(rec["locals"])
+                        rec["locals"].append(sts[0]["rv"]["op"]["ty"])
+                        new_stmts.append({"k": "assign", "place": {"local": n, "proj": []}, "rv": copy.deepcopy(sts[0]["rv"]), "line": st.get("line")})
+                        st = dict(st)
+                        st["rv"] = {"k": "ref", "mut": False, "place": {"local": n, "proj": []}}
+                        stats.setdefault(rec["path"], []).append("const:promoted-scalar")
+                        changed = True
+            new_stmts.append(st)
+        blk["stmts"] = new_stmts
+    return changed
+
+
 def materialise_consts(rec, prog, stats):
     """An operand that names an aggregate constant becomes a local built in place just before its use."""
     changed = False
@@ -2175,6 +2262,14 @@ def apply(prog):
     from facts import Fn
     vocab = load_vocabulary()
     recs = {p: f.rec for p, f in prog.fns.items()}
+    _ADT_DISCR.clear()
+    for ap, adt in (prog.adts or {}).items():
+        try:
+            m = {int(v.get("idx", i)): int(v["discr"]) for i, v in enumerate(adt.get("variants", [])) if v.get("discr") is not None}
+        except (TypeError, ValueError):
+            m = {}
+        if any(k != v for k, v in m.items()):
+            _ADT_DISCR[ap] = m
     helpers = {p for p in recs if is_helper(p, vocab)}
     stats = {}
     touched = set()
@@ -2206,6 +2301,10 @@ def apply(prog):
             if not inline_once(rec, recs, vocab, depth_of, stats):
                 break
             touched.add(p)
+    if any("desugar:partial_cmp" in v for v in stats.values()):
+        # comparisons against a promoted `&0.0`: let `*ref` read as the literal (only where such a comparison was expanded)
+        for p in list(touched):
+            materialise_promoted_scalars(recs[p], prog, stats)
     for p, rec in recs.items():
         if dup_const_joins(rec, stats):
             touched.add(p)
